@@ -3,6 +3,7 @@ package props
 import (
 	"bytes"
 	"fmt"
+	"runtime"
 	"runtime/debug"
 	"syscall"
 	"testing"
@@ -353,4 +354,54 @@ func runC17Page(im maskImpl, c c17Case) (msg string) {
 		return fmt.Sprintf("returned key %#08x want %#08x", got, wantKey)
 	}
 	return ""
+}
+
+// TestC17Neighbours: "never touch memory outside the buffer" includes rewriting
+// neighbouring bytes with the value just read: while one goroutine masks a buffer
+// over and over, another one keeps incrementing the bytes directly before and
+// after it; a read-modify-write that spans them loses increments.
+func TestC17Neighbours(t *testing.T) {
+	rec := evid.For("C17")
+	if runtime.GOMAXPROCS(0) < 2 {
+		t.Skip("needs two CPUs")
+	}
+	ar := newC17Arena()
+	rounds := evid.Scale(1500, 20000)
+	for _, im := range maskImpls() {
+		for _, align := range []int{1, 2, 3, 4, 5, 6, 7, 9, 15, 17, 31, 33, 63} {
+			for _, n := range []int{3, 31, 129, 200, 1000} {
+				start := ar.base + 128 + align
+				data := ar.raw[start : start+n : start+n]
+				before, after := &ar.raw[start-1], &ar.raw[start+n]
+				*before, *after = 0, 0
+				stop := make(chan struct{})
+				done := make(chan int)
+				go func() {
+					k := 0
+					for {
+						select {
+						case <-stop:
+							done <- k
+							return
+						default:
+						}
+						*before++
+						*after++
+						k++
+					}
+				}()
+				key := uint32(0x04030201)
+				for i := 0; i < rounds; i++ {
+					key = im.f(data, key)
+				}
+				close(stop)
+				k := <-done
+				rec.Case(true, fmt.Sprintf("neighbours/%s/%d/%d", im.name, align, n), "concurrent-neighbours")
+				if *before != byte(k) || *after != byte(k) {
+					failCase(t, "C17", map[string]any{"impl": im.name, "align": align, "len": n, "neighbours": true},
+						"bytes next to the buffer lost concurrent updates while %s was masking it: before=%d after=%d, want %d (mod 256): the implementation rewrites memory outside the buffer", im.name, *before, *after, byte(k))
+				}
+			}
+		}
+	}
 }
